@@ -141,11 +141,13 @@ def gen_lattice(max_bound, two_var_bound):
 def check_system(case):
     """Linear two-equation system Y = a*Z + c, Z = b*Y + d (+ optional lag) from grammar G against the machine."""
     a, b, c, d = case['coef']
+    # (the two variables may carry the names of methods / properties of the model class: ordinary names for a script)
+    NY, NZ = case.get('names') or ['Y', 'Z']
     prog = [
-        ['assign', ['var', 'Y', 'v', None], ['bin', '+', ['bin', '*', ['var', 'a', 'p', None], ['var', 'Z', 'v', None]],
+        ['assign', ['var', NY, 'v', None], ['bin', '+', ['bin', '*', ['var', 'a', 'p', None], ['var', NZ, 'v', None]],
                                              ['var', 'c', 'p', None]]],
-        ['assign', ['var', 'Z', 'v', None], ['bin', '+', ['bin', '*', ['var', 'b', 'p', None],
-                                                          ['var', 'Y', 'v', -1 if case.get('lagged') else None]],
+        ['assign', ['var', NZ, 'v', None], ['bin', '+', ['bin', '*', ['var', 'b', 'p', None],
+                                                          ['var', NY, 'v', -1 if case.get('lagged') else None]],
                                              ['var', 'd', 'p', None]]],
     ]
     ref = G.Reference(prog)
@@ -158,7 +160,7 @@ def check_system(case):
                           ('-oscillating' if a * b < 0 else '')])
     if T < ref.lags:
         return res
-    init = {'Y': [1.0] * n, 'Z': [0.5] * n, 'a': [a] * n, 'b': [b] * n, 'c': [c] * n, 'd': [d] * n}
+    init = {NY: [1.0] * n, NZ: [0.5] * n, 'a': [a] * n, 'b': [b] * n, 'c': [c] * n, 'd': [d] * n}
     m = M(range(n), **{k: np.array(v) for k, v in init.items()})
     opts = dict(case['opts'])
     rep = Rep(case.get('rep'))
@@ -182,6 +184,7 @@ def strat_system():
     return st.fixed_dictionaries({
         'coef': st.tuples(coef, coef, st.sampled_from([0.0, 1.0, -3.0]), st.sampled_from([0.0, 2.0])).map(list),
         'lagged': st.booleans(),
+        'names': st.sampled_from([None, None, None, ['size', 'values'], ['copy', 'nbytes'], ['solve', 'eval'], ['values', 'size']]),
         't': st.sampled_from([1, 2, 3, -1, -2]),
         'opts': st.fixed_dictionaries({
             'min_iter': st.integers(0, 3), 'max_iter': st.sampled_from([3, 5, 8, 30, 60]),
